@@ -99,7 +99,7 @@ const xmlNS = "http://www.w3.org/XML/1998/namespace"
 func RunLang() {
 	max := 2
 	if nd.Tier() > 0 {
-		max = 4
+		max = 3
 	}
 	d := spec.NewDoc()
 	var ev []hx.Event
